@@ -689,6 +689,8 @@ def epoch_obligations(E, ep):
     NB = idx.shape[0]
     nbz = C.to_z3(NB)
     E.oblige("epoch.n_batches_is_floor_of_sample_size_over_batch_size", Sym(z3.And(nbz * bz <= mz, mz < (nbz + 1) * bz)), using=[])
+    # C05: an epoch over at least one full batch of samples does train (the optimizer is stepped at least once)
+    E.oblige("epoch.at_least_one_batch_when_samples_cover_a_batch", Sym(z3.Implies(mz >= bz, nbz >= 1)), using=[])
     if not shape_is(E, "epoch.index_shape_is_batches_members_batchsize", idx, (NB, en.K, BS), "indices"):
         return
     E.oblige("canary.epoch", Sym(C.as_int(idx.at(0, 0, 0)) == 0), assume_after=False, using=[])
